@@ -179,11 +179,11 @@ def enumerate_annotated(tier: str):
             yield list(combo), True, "a:tuple[" + ", ".join(tlabel(t) for t in combo) + "]"
 
 
-def render_annotated(cid: int, elems, is_tuple: bool, doc: str | None) -> str:
+def render_annotated(cid: int, elems, is_tuple: bool, doc: str | None, is_async: bool = False) -> str:
     ann = f"tuple[{', '.join(tsrc(t) for t in elems)}]" if is_tuple else tsrc(elems[0])
     generic = "p: T" if any("T" in tlabel(t).split("(")[0] or tlabel(t) == "T" for t in elems) else ""
     d = f'    """Summary.\n{doc}    """\n' if doc else ""
-    return f"def f{cid}({generic}) -> {ann}:\n{d}    ...\n"
+    return f"{'async ' if is_async else ''}def f{cid}({generic}) -> {ann}:\n{d}    ...\n"
 
 
 def numpy_returns(names: list[str | None], types: list[str]) -> str:
@@ -218,6 +218,10 @@ def run(rep: Report, tier: str, seed: int) -> None:
     for elems, is_tuple, label in enumerate_annotated(tier):
         ann_cases.append(Case(cid, render_annotated(cid, elems, is_tuple, None), ("ann", elems, is_tuple, None), (), label))
         cid += 1
+        # the same annotation on an 'async def': the declared type counts, not the coroutine wrapped around it
+        if len(elems) <= 2:
+            ann_cases.append(Case(cid, render_annotated(cid, elems, is_tuple, None, True), ("ann", elems, is_tuple, None), (), "async:" + label))
+            cid += 1
     # ---- annotated + numpydoc result names
     doc_cases: list[Case] = []
     doc_types = {"int": "int", "str": "str"}
@@ -262,7 +266,7 @@ def run(rep: Report, tier: str, seed: int) -> None:
     rep.rule = (
         "inferred: one return statement under every statement context (16 contexts, depth<=%s) x 20 typed (incl. conditional expressions with one untypable branch on either side, nested conditionals, tuples with an untypable item) + 12 untyped return expressions; two return statements at depth<=1 over %d typed letters%s;"
         " return statements in 2..4 clauses of one try statement (each clause: none / return / conditional return; 72 shapes) and in the branches of one if / for-else / while-else / match;"
-        " functions and methods. annotated: 12 annotation terms alone and as tuple[...] of 1..3; numpydoc result sections with 0..3 entries, each named or unnamed, against 1..3 results."
+        " functions and methods. annotated: 15 annotation terms alone and as tuple[...] of 1..3, also on 'async def'; numpydoc result sections with 0..3 entries, each named or unnamed, against 1..3 results."
         " distinct = distinct case label" % ("1 + 8 depth-2 paths" if tier == "quick" else "2 (complete)", len(RV_QUICK2) if tier == "quick" else len(RV_TYPED), "" if tier == "quick" else "; three return statements over top/if/else x 8 letters")
     )
     stats: dict[str, int] = {}
